@@ -1,6 +1,6 @@
 """Replay of LinenSetup.tla behaviours (setup-style modules, shared submodules, nn.share_scope, method-level lifts,
 nn.while_loop) on real flax.  Used by checks/c02.py, c05.py, c09.py; every divergence is tagged with the property it belongs to:
-  C01  inputs of apply changed / wrong set of returned collections
+  C01  inputs of apply changed / wrong set of returned collections / a repeated apply returns something else
   C02  variable tree does not mirror the module tree, name clash not reported, shared submodule not shared
   C05  a lifted method / while_loop differs from the specification or from the equivalent plain program, cache-hit differs
   C09  key identities (equal bits <=> equal identity)
@@ -159,6 +159,7 @@ def replay(beh, idx, full=True, repeat=True):
         first = r
       elif not np.array_equal(first['out'], r['out']):
         viol.append(('C05', key, 'two identical applies return different outputs (the second one hits the trace cache of the lifted method)'))
+        viol.append(('C01', key, 'repeating apply on the same module and the same inputs returns different outputs'))
         if not np.array_equal(first['out'][:, 3:], r['out'][:, 3:]):
           viol.append(('C09', key, 'the same program with the same seeds drew different keys in two identical applies'))
   if lifted and full and first is not None:
@@ -363,7 +364,7 @@ def run(chk, prop):
   # exhaustive, focused: a lazily bound grand-child used through plain / stream-subset remat / jit methods (3 uses)
   sub = tlc.require_ok(tlc.run('LinenSetup', 'LinenSetup_subset.cfg', workers=1, timeout=3000), 'LinenSetup stream-subset lifts')
   chk.add_tlc(sub, 'LinenSetup stream-subset lifts (exhaustive, 3 uses)')
-  step = 1 if thorough else (3 if prop in ('C05', 'C09') else 8)
+  step = 1 if thorough else (3 if prop in ('C05', 'C09') else (5 if prop == 'C01' else 8))
   seen = set()
   for idx, beh in enumerate(ja['exports'][::step] + sub['exports'][::step] + sim['exports']):
     sig = json.dumps(beh, sort_keys=True)
@@ -371,7 +372,7 @@ def run(chk, prop):
       continue
     seen.add(sig)
     try:
-      viol = replay(beh, idx, full, repeat=(prop in ('C05', 'C09')))
+      viol = replay(beh, idx, full, repeat=(prop in ('C01', 'C05', 'C09')))
     except Exception as e:      # a crash of the real API outside the guarded calls
       viol = [('C05', 'setup:crash', f'{type(e).__name__}: {str(e)[:200]}')]
     chk.count('setup:' + str(hash(sig)), nontrivial=len(beh['uses']) >= 2)
